@@ -728,8 +728,11 @@ func c09DKG(g *gen.G) {
 	}
 	for i, m := 0, g.Int("dkgCalls", 1, 14); i < m; i++ {
 		orig := hostileInt(g, "orig", n)
-		if g.Chance("origSane", 2, 3) {
+		switch g.Int("origKind", 0, 5) {
+		case 0, 1, 2, 3:
 			orig = g.Pick("origIn", n)
+		case 4:
+			orig = []int{n, -1, n + 256, 256}[g.Pick("origEdge", 4)] // the values next to the range, and their byte-truncated twins
 		}
 		var data []byte
 		switch g.Int("payloadKind", 0, 8) {
